@@ -219,9 +219,9 @@ CHECKS = {
         text='BOUNDED slice, raw mode only: "every DIE yielded by child of D has D as parent". child_iterator (dwit.cc) and parent_cache::find '
              '(cache.cc) are lowered per run and run over the libdw forest model of C02: for every forest shape of <= 4 DIEs (22 shapes enumerated, '
              'offsets symbolic) and every DIE D, child_iterator(D) yields exactly the DIEs whose parent is D, each once, in section order, and '
-             'parent_cache::find of each of them is D\'s offset.',
+             'parent_cache::find of each of them is D\'s offset; root_cache::is_root (?root, with the real cu_iterator; forests of <= 3 DIEs, fixed offsets) holds exactly for unit DIEs.',
         design_ref='DESIGN.md section 4 C05',
-        note='bounded; SLICE: cooked mode (import chains carried by value_die, fetch_parent_die), root/?root, unit, entry, and equality of DIEs reached '
+        note='bounded; SLICE: cooked mode (import chains carried by value_die, fetch_parent_die), the root word, unit, entry, and equality of DIEs reached '
              'twice are NOT covered. Assumed contract on elfutils (props/c02/dw_model*.h); cache (std::map) and std::lower_bound modelled.',
         technique='bounded unwinding (CBMC, unwinding assertions) of C lowered from the real C++ per run, against a forest model of libdw',
     ),
